@@ -534,13 +534,35 @@ func idx(n int) []uint64 {
 
 // blockBinding: content mutations with the header fields kept
 func (e *env) blockBinding(cs consensus.State, orig types.Block, bs consensus.V1BlockSupplement) {
+	e.bindingLoop(cs, orig, bs)
+	// the same v1 content in a v2 envelope below the allow height (accepted when its commitment is right): its ID is
+	// then the header with that commitment, which must bind the content all the same
+	if h := cs.Index.Height + 1; orig.V2 == nil && h < e.c.Net.N.HardforkV2.AllowHeight {
+		env := chaingen.CloneBlock(orig)
+		env.V2 = &types.V2BlockData{}
+		miner := types.VoidAddress
+		if len(env.MinerPayouts) > 0 {
+			miner = env.MinerPayouts[0].Address
+		}
+		if e.c.Seal(cs, &env, miner, 1, nil) == nil {
+			if consensus.ValidateBlock(cs, env, bs) == nil {
+				e.b.Count("v2_envelopes_below_the_allow_height_accepted", 1)
+				e.bindingLoop(cs, env, bs)
+			} else {
+				e.b.Count("v2_envelopes_below_the_allow_height_rejected", 1)
+			}
+		}
+	}
+}
+
+func (e *env) bindingLoop(cs consensus.State, orig types.Block, bs consensus.V1BlockSupplement) {
 	rng := e.c.Rng
 	id0 := orig.ID()
 	paths := mutate.Leaves(&orig)
 	var cand []string
 	for _, p := range paths {
-		if p == ".ParentID" || p == ".Nonce" || p == ".Timestamp" {
-			continue // header fields are kept
+		if p == ".ParentID" || p == ".Nonce" || p == ".Timestamp" || strings.HasPrefix(p, ".V2.Commitment") {
+			continue // header fields are kept (for a v2 block the commitment is one of them)
 		}
 		cand = append(cand, p)
 	}
